@@ -80,6 +80,8 @@ const (
 	evBlackLapse = 29 // a key quiet a 3 ms blacklist entry on the exact (0) / range (1) / wider range (2) key of a, and 8 ms pass: the
 	//                               expired record stays in the table.  quiet=1: IPManager.IsAllowed is not called for a until the next
 	//                               handshake from a, which therefore is the FIRST lookup after the expiry
+	evCleanup    = 30 // a           40 minutes pass for the ban record of a if it then still has >= 5 minutes to run (an operator ban longer
+	//                               than the configured 30-minute BanDuration), and the periodic BruteForceProtector.cleanup() runs
 	evCorrupt  = 14 // x kind  the stored credential (ClientConfig.SecretKeyEncrypted) of client x becomes unusable:
 	//                         0 "" (unmigrated legacy record) | 1 not base64 | 2 base64 but not decryptable |
 	//                         3 sealed under another master key | 4 base64 shorter than a nonce
@@ -956,6 +958,9 @@ func (w *world) exec(i int, op []int, po *stepObs, out *caseOut, pin *caseIn) {
 			w.lostSeen[op[1]] = false
 			w.specPerm[op[1]] = false
 			w.permSeen[op[1]] = false
+		case evCleanup:
+			fx.BruteForce.VerifAgeBan(w.ip(op[1]), 40*time.Minute, 5*time.Minute)
+			fx.BruteForce.VerifCleanup()
 		case evBanPerm:
 			fx.BruteForce.BanIP(w.ip(op[1]), 0, "verif-permanent")
 			w.specBan[op[1]] = true
